@@ -1564,6 +1564,16 @@ int bufr_init_location( BufrDDOp *ddo, BufrDescriptor *cb )
  * @author Vanh Souvanlasy
  * @ingroup internal
  */
+static int compare_override_tableb( const void *p1, const void *p2 )
+   {
+   EntryTableB *r1 = *(EntryTableB **)p1;
+   EntryTableB *r2 = *(EntryTableB **)p2;
+
+   if (r1->descriptor < r2->descriptor) return -1;
+   if (r1->descriptor > r2->descriptor) return 1;
+   return 0;
+   }
+
 int bufr_apply_op_crefval( BufrDDOp *ddo, BufrDescriptor *cb, BUFR_Template *tmplt )
    {
    char   errmsg[256];
@@ -1629,6 +1639,10 @@ int bufr_apply_op_crefval( BufrDDOp *ddo, BufrDescriptor *cb, BUFR_Template *tmp
                    * adding new override to table b 
                    */
                   arr_add( ddo->override_tableb, (char *)&tb1 ); 
+                  /* 
+                   * bufr_tableb_fetch_entry() does a binary search: keep the overrides sorted
+                   */
+                  arr_sort( ddo->override_tableb, compare_override_tableb );
                   if (debug)
                      bufr_print_debug( _("descriptor reference overrided\n") );
                   }
